@@ -60,6 +60,7 @@ class Check:
         self._known_hits: dict[str, int] = {}
         self._known = {f["signature"]: f for f in load_known() if f["property"] == pid}
         self._distinct: set[str] = set()
+        self._distinct_n = 0
         self.machinery_error: str | None = None
 
     # ---- coverage ----
@@ -82,6 +83,9 @@ class Check:
             if sample is not None and len(self.cov["samples"]) < 6:
                 self.cov["samples"].append(sample)
 
+    def add_distinct(self, n: int) -> None:
+        self._distinct_n += n
+
     def validated(self, n: int = 1) -> None:
         self.cov["traces_validated_against_impl"] += n
 
@@ -100,7 +104,7 @@ class Check:
                        {"kind": "spec", "what": what, "trace": r.trace[:200]})
 
     def finish(self) -> int:
-        self.cov["distinct_nontrivial"] = len(self._distinct)
+        self.cov["distinct_nontrivial"] = len(self._distinct) + self._distinct_n
         EVIDENCE.mkdir(exist_ok=True)
         lines = []
         for sig, n in sorted(self._known_hits.items()):
